@@ -2,13 +2,14 @@
 VERUS = {
     'int_bits_large': {'file': 'int_bits_large.rs', 'w32': True},
     'int_shift_ops': {'file': 'int_shift_ops.rs', 'w32': True},
+    'int_bits_signed': {'file': 'int_bits_signed.rs', 'w32': True},
     'int_shift_ops_dword': {'file': 'int_shift_ops_dword.rs', 'w32': False},   # u128::leading_zeros assumption
 }
 
 KANI = {}
 
 PROP_UNITS = {
-    'C09': {'verus': ['int_bits_large', 'int_shift_ops', 'int_shift_ops_dword']},
-    'C16': {'verus': ['int_bits_large', 'int_shift_ops', 'int_shift_ops_dword']},
+    'C09': {'verus': ['int_bits_large', 'int_shift_ops', 'int_shift_ops_dword', 'int_bits_signed']},
+    'C16': {'verus': ['int_bits_large', 'int_shift_ops', 'int_shift_ops_dword', 'int_bits_signed']},
     'C19': {'verus': ['int_bits_large', 'int_shift_ops']},
 }
